@@ -104,6 +104,47 @@ func (g *gen15) enabledTpl(sc scope, forIterator bool) (Tpl, bool) {
 // tells whether the entries go to `vars`. Now and then the KEY is the name of an
 // iteration variable in scope: a role-level default/var colliding with it (the
 // generated role's own vars never define its own iteration variable: unranked).
+// wsEnabled makes the value that `enabled` resolves to carry surrounding white
+// space: blanks or tabs around a literal or around the expression, a trailing
+// newline (YAML block scalar), or a variable whose VALUE is "true " / "true\n" /
+// " false". Literal and templated, true and false.
+func (g *gen15) wsEnabled(n *Node) {
+	if n.Enabled == nil || n.Enabled.IsErr() || g.r.Intn(100) >= 30 {
+		return
+	}
+	n.EnabledBare, n.EnabledWS = false, true
+	lead := []string{" ", "  ", "\t"}[g.r.Intn(3)]
+	trail := []string{" ", "\t", "  ", " \t"}[g.r.Intn(4)]
+	lit := !n.Enabled.HasExpr()
+	switch f := g.r.Intn(6); {
+	case f == 0:
+		n.Enabled = append(Tpl{{K: PLit, S: lead}}, n.Enabled...)
+	case f == 1:
+		n.Enabled = append(append(Tpl{}, n.Enabled...), Part{K: PLit, S: trail})
+	case f == 2:
+		n.Enabled = append(append(Tpl{{K: PLit, S: lead}}, n.Enabled...), Part{K: PLit, S: trail})
+	case f == 3:
+		n.EnabledBlock = true // "...\n"
+		if g.r.Intn(2) == 0 {
+			n.Enabled = append(append(Tpl{}, n.Enabled...), Part{K: PLit, S: trail})
+		}
+	case lit:
+		// through a variable whose value carries the white space
+		if isTrue(n.Enabled.Text()) {
+			n.Enabled = Ref(g.pick([]string{"flagT", "flagTn", "flagTU"}))
+		} else {
+			n.Enabled = Ref(g.pick([]string{"flagF", "flagFn"}))
+		}
+	default:
+		n.EnabledBlock = true
+	}
+}
+
+var wsFlags = []KV{
+	{K: "flagT", V: Lit("true ")}, {K: "flagTn", V: Lit("true\n")}, {K: "flagTU", V: Lit(" TRUE")},
+	{K: "flagF", V: Lit(" false")}, {K: "flagFn", V: Lit("false \n")},
+}
+
 func (g *gen15) kvs(sc scope, max int, allowRef bool, own string, isVars bool) []KV {
 	n := g.r.Intn(max + 1)
 	seen := map[string]bool{}
@@ -309,6 +350,7 @@ func (g *gen15) node(sc scope, rootVars *[]KV) *Node {
 	n.Name = name
 	// own-stage scope: the own iteration variable is bound in every field of the role
 	n.Enabled, n.EnabledBare = g.enabledTpl(csc, n.Iter != nil)
+	g.wsEnabled(n)
 	ownIt := ""
 	if n.Iter != nil {
 		ownIt = n.Iter.Var
@@ -372,6 +414,7 @@ func (g *gen15) node(sc scope, rootVars *[]KV) *Node {
 		sub.Enabled, sub.EnabledBare = nil, false
 		if g.r.Intn(5) == 0 {
 			sub.Enabled, sub.EnabledBare = g.enabledTpl(ssc, false)
+			g.wsEnabled(sub)
 		}
 		sub.Defaults = g.kvs(ssc, 2, true, "", false)
 		sub.Vars = g.kvs(ssc, 2, true, "", true)
@@ -403,6 +446,7 @@ func (g *gen15) rootNode(name string) *Node {
 		root.Defaults = append(root.Defaults, KV{K: k, V: Lit(g.pick(gVals))})
 	}
 	root.Defaults = append(root.Defaults, KV{K: "tmo", V: Lit(g.pick([]string{"7s", "11s"}))})
+	root.Defaults = append(root.Defaults, wsFlags...)
 	var rootVars []KV
 	// root vars may refer to root defaults (own defaults are visible to own vars)
 	for _, k := range gNames {
@@ -541,6 +585,7 @@ func addUse(r *rand.Rand, ni *nodeInfo, t Tpl, legit bool) string {
 		} else {
 			n.Enabled, n.EnabledBare = Tpl{{K: PEq, S: t[len(t)-1].S, Lit: "a"}}, false
 		}
+		n.EnabledBlock, n.EnabledWS = false, false
 	case "name":
 		n.Name = append(append(Tpl{}, n.Name...), append(Tpl{{K: PLit, S: "_"}}, t...)...)
 	}
@@ -683,7 +728,7 @@ func inject(r *rand.Rand, infos map[int]*nodeInfo, avoid map[int]bool) (injectio
 			n.Name = append(append(Tpl{}, n.Name...), et...)
 		}
 	case "enabled":
-		n.Enabled, n.EnabledBare = et, false
+		n.Enabled, n.EnabledBare, n.EnabledBlock, n.EnabledWS = et, false, false, false
 	case "constraints":
 		n.Constraints = append(n.Constraints, KV{K: "errattr", V: et})
 	case "timeout":
@@ -924,6 +969,7 @@ func (g *gen15) nestedIter(name string) *Node {
 		root.Defaults = append(root.Defaults, KV{K: k, V: Lit(g.pick(gVals))})
 	}
 	root.Defaults = append(root.Defaults, KV{K: "tmo", V: Lit("7s")})
+	root.Defaults = append(root.Defaults, wsFlags...)
 	outer := &Node{ID: g.id(), Kind: "agg", Name: Tpl{{K: PLit, S: "o-"}, {K: PRef, S: "it1"}}}
 	var odom []string
 	n := 2 + r.Intn(4)
